@@ -15,7 +15,8 @@ Record phase := mkPh {
 Inductive c41case :=
 | CDial (capn n : N) (phases : list phase)
 | CStress (capn n to maxin : N) (accepting : bool) (rs : list (xres * N))
-| CConsts (default_timeout_ms dns_cache_ms : N).
+| CConsts (default_timeout_ms dns_cache_ms : N)
+| CUnstable.   (* the scenario was disturbed by machine load on every attempt (independent canary): dropped, judges nothing *)
 
 Definition xres_eqb (a b : xres) : bool :=
   match a, b with
@@ -64,6 +65,7 @@ Definition corr_ok (c : c41case) : bool :=
   | CDial capn n phases => dial_corr (mkCfg capn n) dsinit phases
   | CStress capn n to maxin acc rs => stress_corr capn n to maxin acc rs
   | CConsts dt dc => (Z.of_N dt * 1000000 =? DefaultDialTimeout)%Z && (Z.of_N dc * 1000000 =? DefaultDNSCacheDuration)%Z
+  | CUnstable => true
   end.
 
 Definition prop_ok (c : c41case) : bool :=
@@ -71,4 +73,5 @@ Definition prop_ok (c : c41case) : bool :=
   | CDial capn n phases => forallb (fun p => forallb (dial_ok (ph_oracle p)) (ph_results p)) phases
   | CStress capn n to maxin acc rs => stress_dial_ok capn to maxin acc rs
   | CConsts _ _ => true
+  | CUnstable => true
   end.
